@@ -12,7 +12,9 @@ RULE = ("linear constraints with integer coefficients/constants/bounds in +-12 o
         "binary_encoding(ub) for ub in 2..300, CQMs with binary/spin/zero-lower-bound integer variables and <= 3 linear integer "
         "constraints of all senses through cqm_to_bqm and its inverter; non-trivial = at least one term / slack variable / constraint; "
         "distinct by canonical JSON of the case")
-TRUSTED = ["model: coq/theories/Model/Penalty.v, CqmBqm.v, DqmAdj.v, Comb.v, Poly.v, ChkC16.v (hand written, tied by this correspondence)",
+TRUSTED = ["coefficients of every equality expansion (native BQM, DQM, python fallback), the slack construction rules and the 'unbalanced' terms are GENERATED "
+           "from cybqm_template.pyx.pxi / cydiscrete_quadratic_model.pyx / binary_quadratic_model.py by translators/penalty_formulas.py (Gen/Gen_Penalty.v, fail-closed)",
+           "model: coq/theories/Model/Penalty.v, CqmBqm.v, DqmAdj.v, Comb.v, Poly.v, ChkC16.v (hand written, tied by this correspondence)",
            "BQM and DQM kinds: all assignments x all slack assignments are enumerated INSIDE Coq on the coefficients the implementation reports",
            "cqm kind: the worker enumerates all BQM samples with bqm.energies (exact on the dyadic data) and the Python inverter, and feeds "
            "per-CQM-assignment minima to Coq, which computes objective, feasibility and the comparison",
@@ -20,5 +22,5 @@ TRUSTED = ["model: coq/theories/Model/Penalty.v, CqmBqm.v, DqmAdj.v, Comb.v, Pol
 ASSUMPTIONS = ["the coefficients a model reports (linear, quadratic, offset) define its energy (property C01)",
                "IEEE-754 arithmetic is exact on the small dyadic coefficients generated",
                "inequality constraints are generated for BINARY BQMs only (on SPIN BQMs the bound computation is a known defect, kept as corpus case)",
-               "DQM: cross_zero=False only; BQM: cross_zero and penalization_method='unbalanced' are covered (for 'unbalanced' only the exact added polynomial is claimed)"]
+               "cross_zero is covered for the BQM and the DQM method, penalization_method='unbalanced' for the BQM (for 'unbalanced' only the exact added polynomial is claimed)"]
 PARTIAL = []
